@@ -725,6 +725,21 @@ lookup(const std::string& id, const std::string& variant) {
     return p;
 }
 
+#ifdef VERIF_FUZZ
+extern "C" int LLVMFuzzerTestOneInput(const std::uint8_t* data,
+                                      std::size_t size) {
+    static std::vector<vf::Property> table = {*lookup("C18", "list"), *lookup("C18", "catalogs")};
+    static bool once = [] {
+        std::atexit([] {
+            fflush(nullptr);
+            _exit(0);
+        });
+        return true;
+    }();
+    (void)once;
+    return vf::fuzz_one(data, size, table, "e5");
+}
+#else
 int main(int argc, char** argv) {
     if (vf::hasflag(argc, argv, "--exhaustive")) {
         int len = atoi(vf::getarg(argc, argv, "--exhaustive").c_str());
@@ -737,3 +752,4 @@ int main(int argc, char** argv) {
     fflush(nullptr);
     _exit(rc);
 }
+#endif
